@@ -1,13 +1,16 @@
 #[cfg(not(feature = "std"))]
 use alloc::vec;
 
-use anyhow::ensure;
+use anyhow::{anyhow, ensure};
 
 use crate::field::extension::Extendable;
-use crate::fri::proof::{FriProof, FriQueryRound, FriQueryStep};
+use crate::fri::proof::{
+    CompressedFriProof, CompressedFriQueryRounds, FriProof, FriQueryRound, FriQueryStep,
+};
 use crate::fri::structure::FriInstanceInfo;
 use crate::fri::FriParams;
 use crate::hash::hash_types::RichField;
+use crate::hash::path_compression::compressed_merkle_proof_lengths;
 use crate::plonk::config::GenericConfig;
 use crate::plonk::plonk_common::salt_size;
 
@@ -85,6 +88,95 @@ where
     // from them by step number.
     ensure!(commit_phase_merkle_caps.len() == params.reduction_arity_bits.len());
     ensure!(final_poly.len() == params.final_poly_len());
+
+    Ok(())
+}
+
+/// Validates the shape of a compressed FRI proof against the query indices `indices` it has to
+/// answer: exactly the entries, evaluations and Merkle siblings that decompression consumes.
+pub(crate) fn validate_compressed_fri_proof_shape<F, C, const D: usize>(
+    proof: &CompressedFriProof<F, C::Hasher, D>,
+    indices: &[usize],
+    instance: &FriInstanceInfo<F, D>,
+    params: &FriParams,
+) -> anyhow::Result<()>
+where
+    F: RichField + Extendable<D>,
+    C: GenericConfig<D, F = F>,
+{
+    let CompressedFriProof {
+        commit_phase_merkle_caps,
+        query_round_proofs:
+            CompressedFriQueryRounds {
+                // Redundant: verification recomputes the indices from the transcript.
+                indices: _,
+                initial_trees_proofs,
+                steps,
+            },
+        final_poly,
+        pow_witness: _pow_witness,
+    } = proof;
+
+    let cap_height = params.config.cap_height;
+    let num_reductions = params.reduction_arity_bits.len();
+    ensure!(commit_phase_merkle_caps.len() == num_reductions);
+    for cap in commit_phase_merkle_caps {
+        ensure!(cap.len() == 1 << cap_height);
+    }
+    ensure!(steps.len() == num_reductions);
+    ensure!(final_poly.len() == params.final_poly_len());
+    ensure!(!indices.is_empty());
+    ensure!(indices.iter().all(|&i| i < params.lde_size()));
+
+    // The indices of the first occurrences of the distinct elements of `xs`, which are the
+    // positions whose (compressed) Merkle proofs are stored.
+    let first_occurrences = |xs: &[usize]| {
+        (0..xs.len())
+            .filter(|&k| !xs[..k].contains(&xs[k]))
+            .collect::<Vec<_>>()
+    };
+
+    // Initial trees.
+    let leaf_len = instance
+        .oracles
+        .iter()
+        .map(|oracle| oracle.num_polys + salt_size(oracle.blinding && params.hiding))
+        .collect::<Vec<_>>();
+    let siblings_len = compressed_merkle_proof_lengths(indices, params.lde_bits(), cap_height);
+    let firsts = first_occurrences(indices);
+    ensure!(initial_trees_proofs.len() == firsts.len());
+    for &k in &firsts {
+        let initial_trees_proof = initial_trees_proofs
+            .get(&indices[k])
+            .ok_or_else(|| anyhow!("Missing initial trees proof for a query index."))?;
+        ensure!(initial_trees_proof.evals_proofs.len() == leaf_len.len());
+        for ((leaf, merkle_proof), &len) in initial_trees_proof.evals_proofs.iter().zip(&leaf_len) {
+            ensure!(leaf.len() == len);
+            ensure!(merkle_proof.len() == siblings_len[k]);
+        }
+    }
+
+    // Reduction steps.
+    let mut indices = indices.to_vec();
+    let mut codeword_len_bits = params.lde_bits();
+    for (query_steps, &arity_bits) in steps.iter().zip(&params.reduction_arity_bits) {
+        indices.iter_mut().for_each(|index| *index >>= arity_bits);
+        codeword_len_bits -= arity_bits;
+        let siblings_len = compressed_merkle_proof_lengths(&indices, codeword_len_bits, cap_height);
+        let firsts = first_occurrences(&indices);
+        ensure!(query_steps.len() == firsts.len());
+        for &k in &firsts {
+            let FriQueryStep {
+                evals,
+                merkle_proof,
+            } = query_steps
+                .get(&indices[k])
+                .ok_or_else(|| anyhow!("Missing query step for a coset index."))?;
+            // The evaluation at the queried point is inferred.
+            ensure!(evals.len() + 1 == 1 << arity_bits);
+            ensure!(merkle_proof.len() == siblings_len[k]);
+        }
+    }
 
     Ok(())
 }
